@@ -64,6 +64,7 @@ func (fr *frame) doCall(b *ssa.BasicBlock, st *state, ins ssa.Instruction, call 
 		fr.doBuiltin(b, st, ins, bi, call, v)
 		return
 	}
+	fr.callsiteObls(b, st, ins, call)
 	var args []string
 	var argTypes []types.Type
 	var callee *ssa.Function
@@ -225,7 +226,7 @@ func (fr *frame) applyContract(b *ssa.BasicBlock, st *state, ins ssa.Instruction
 	vc := fr.vc
 	c := vc.c
 	bc := fr.cond[b]
-	bind := func(cur, old *state, results []string) *trans {
+	bindC := func(ct *contract, cur, old *state, results []string) *trans {
 		tr := &trans{c: c, pkg: ct.Pkg, vars: map[string]tvar{}, cur: cur, old: old, depth: 1}
 		names := ct.Names
 		if len(names) == 0 && callee != nil {
@@ -247,6 +248,16 @@ func (fr *frame) applyContract(b *ssa.BasicBlock, st *state, ins ssa.Instruction
 		bindResults(tr, c, sig, results)
 		return tr
 	}
+	bind := func(cur, old *state, results []string) *trans { return bindC(ct, cur, old, results) }
+	// a concrete method reached by a static call is also covered by the interface-level contracts of its interfaces
+	all := []*contract{ct}
+	if callee != nil && !ct.Interface && callee.Signature.Recv() != nil {
+		for _, ic := range vc.w.ifaceContractsFor(callee) {
+			if ic != ct {
+				all = append(all, ic)
+			}
+		}
+	}
 	vc.callCount[label]++
 	n := vc.callCount[label]
 	short := label
@@ -255,13 +266,20 @@ func (fr *frame) applyContract(b *ssa.BasicBlock, st *state, ins ssa.Instruction
 	}
 	pre := st.clone()
 	trPre := bind(pre, pre, nil)
-	for k, cl := range ct.clausesFor(vc.layer) {
-		if cl.Kind != "requires" {
-			continue
+	for ci, cc := range all {
+		trP := bindC(cc, pre, pre, nil)
+		for k, cl := range cc.clausesFor(vc.layer) {
+			if cl.Kind != "requires" {
+				continue
+			}
+			f := vc.trClause(trP, cl)
+			nm := fmt.Sprintf("pre@%s#%d.%d", short, n, k+1)
+			if ci > 0 {
+				nm = fmt.Sprintf("pre@%s#%d.i%d.%d", short, n, ci, k+1)
+			}
+			vc.addObl(&obligation{Name: nm, Kind: "pre", Goal: and(bc, not(f)), Pos: vc.pos(ins.Pos()), Clause: cl.Src, Inputs: vc.inputTerms()})
+			c.assume(implies(bc, f))
 		}
-		f := vc.trClause(trPre, cl)
-		vc.addObl(&obligation{Name: fmt.Sprintf("pre@%s#%d.%d", short, n, k+1), Kind: "pre", Goal: and(bc, not(f)), Pos: vc.pos(ins.Pos()), Clause: cl.Src, Inputs: vc.inputTerms()})
-		c.assume(implies(bc, f))
 	}
 	// termination of recursion
 	if callee != nil || ct.Interface {
@@ -305,12 +323,14 @@ func (fr *frame) applyContract(b *ssa.BasicBlock, st *state, ins ssa.Instruction
 	for i, r := range results {
 		vc.typed(r, sig.Results().At(i).Type(), st)
 	}
-	trPost := bind(st, pre, results)
-	for _, cl := range ct.clausesFor(vc.layer) {
-		if cl.Kind != "ensures" {
-			continue
+	for _, cc := range all {
+		trPost := bindC(cc, st, pre, results)
+		for _, cl := range cc.clausesFor(vc.layer) {
+			if cl.Kind != "ensures" {
+				continue
+			}
+			c.assume(implies(bc, vc.trClause(trPost, cl)))
 		}
-		c.assume(implies(bc, vc.trClause(trPost, cl)))
 	}
 	// ghost events emitted by the callee (definitional)
 	for _, em := range ct.Emits {
@@ -720,4 +740,35 @@ func (fr *frame) willInline(callee *ssa.Function) bool {
 	}
 	inMod := callee.Pkg != nil && vc.w.inModule(callee.Pkg.Pkg.Path()) || (callee.Parent() != nil)
 	return inMod && callee.Blocks != nil && fr.depth < maxInlineDepth && !vc.recursive(callee) && (len(fr.calleeLoops(callee)) == 0 || (ct != nil && ct.Inline)) && !vc.onStack(callee)
+}
+
+// callsiteObls: assertions the caller's contract attaches to its N-th call of a given callee.
+func (fr *frame) callsiteObls(b *ssa.BasicBlock, st *state, ins ssa.Instruction, call *ssa.CallCommon) {
+	vc := fr.vc
+	if fr.inline || fr.ct == nil {
+		return
+	}
+	name := ""
+	if call.IsInvoke() {
+		name = ifaceMethodKey(call.Value.Type(), call.Method.Name())
+	} else if f := call.StaticCallee(); f != nil {
+		name = f.String()
+	} else {
+		return
+	}
+	short := name
+	if i := strings.LastIndex(short, "/"); i >= 0 {
+		short = short[i+1:]
+	}
+	vc.siteCount[short]++
+	n := vc.siteCount[short]
+	for _, cl := range fr.ct.clausesFor(vc.layer) {
+		if cl.Kind != "callsite" || cl.Target != short || cl.Loop != n {
+			continue
+		}
+		tr := vc.contractTrans(fr.ct, fr.fn, nil, st, vc.entry)
+		f := vc.trClause(tr, cl)
+		vc.addObl(&obligation{Name: fmt.Sprintf("callsite/%s@%s#%d", cl.Label, short, n), Kind: "ensures", Label: cl.Label, Goal: and(fr.cond[b], not(f)),
+			Pos: vc.pos(ins.Pos()), Clause: cl.Src, Props: propsOfLabel(cl.Label, vc.props), Inputs: vc.inputTerms()})
+	}
 }
